@@ -125,6 +125,49 @@ pub fn to_cql(t: &MType, v: &MValue) -> Option<CqlValue> {
     })
 }
 
+/// An EQUIVALENT dynamic value for the same model value: inside every UDT the fields are named, so
+/// they may be given in any order, and a field whose value is null may simply be left out (also in the
+/// middle - "a UDT given fewer fields than its type"). Must serialize to the same bytes.
+pub fn to_cql_udt_variant(t: &MType, v: &MValue, salt: u64) -> Option<CqlValue> {
+    Some(match (t, v) {
+        (MType::List(e), MValue::List(xs)) => CqlValue::List(xs.iter().map(|x| to_cql_udt_variant(e, x, salt)).collect::<Option<_>>()?),
+        (MType::Set(e), MValue::Set(xs)) => CqlValue::Set(xs.iter().map(|x| to_cql_udt_variant(e, x, salt)).collect::<Option<_>>()?),
+        (MType::Vector(e, _), MValue::Vector(xs)) => CqlValue::Vector(xs.iter().map(|x| to_cql_udt_variant(e, x, salt)).collect::<Option<_>>()?),
+        (MType::Map(kt, vt), MValue::Map(kvs)) => CqlValue::Map(kvs.iter().map(|(k, x)| Some((to_cql_udt_variant(kt, k, salt)?, to_cql_udt_variant(vt, x, salt)?))).collect::<Option<_>>()?),
+        (MType::Tuple(ts), MValue::Tuple(xs)) => CqlValue::Tuple(xs.iter().zip(ts).map(|(x, ft)| to_cql_udt_variant(ft, x, salt)).collect()),
+        (MType::Udt { keyspace, name, fields }, MValue::Udt(xs)) => {
+            let mut fs: Vec<(String, Option<CqlValue>)> = Vec::new();
+            for (i, (x, (fname, ft))) in xs.iter().zip(fields).enumerate() {
+                let c = to_cql_udt_variant(ft, x, salt);
+                let h = crate::fw::hash64(format!("{salt}:{fname}:{i}").as_bytes());
+                if c.is_none() && h % 2 == 0 {
+                    continue; // a null field, left out
+                }
+                fs.push((fname.clone(), c));
+            }
+            if !fs.is_empty() {
+                let r = (salt as usize) % fs.len();
+                fs.rotate_left(r);
+                if salt % 3 == 0 {
+                    fs.reverse();
+                }
+            }
+            CqlValue::UserDefinedType { keyspace: keyspace.clone(), name: name.clone(), fields: fs }
+        }
+        _ => return to_cql(t, v),
+    })
+}
+
+fn contains_udt(t: &MType) -> bool {
+    match t {
+        MType::Udt { .. } => true,
+        MType::List(e) | MType::Set(e) | MType::Vector(e, _) => contains_udt(e),
+        MType::Map(k, v) => contains_udt(k) || contains_udt(v),
+        MType::Tuple(ts) => ts.iter().any(contains_udt),
+        _ => false,
+    }
+}
+
 /// Model image of a driver value read as type `t` (Err = it is not a value of that type).
 pub fn from_cql(t: &MType, c: Option<&CqlValue>) -> Result<MValue, String> {
     let Some(c) = c else { return Ok(MValue::Null) };
@@ -443,6 +486,17 @@ pub fn cqlvalue_case(t: &MType, v: &MValue) -> Result<(), Failure> {
         Ok(Ok(b)) => b,
     };
     is_encoding_of(t, v, &got, true).map_err(|e| fail("ser:bytes", e))?;
+    // (1b) the same value with UDT fields named in another order and null fields left out
+    if contains_udt(t) && !matches!(v, MValue::Null | MValue::Unset | MValue::Empty) {
+        let salt = crate::fw::hash64(&got);
+        if let Some(c) = to_cql_udt_variant(t, v, salt) {
+            match drv_ser(&c, &ct) {
+                Err(p) => return Err(fail("ser:panic", format!("UDT fields given out of order / null fields left out: {p}"))),
+                Ok(Err(e)) => return Err(fail("ser:refused", format!("UDT fields given out of order / null fields left out ({c:?}): {e}"))),
+                Ok(Ok(b)) => is_encoding_of(t, v, &b, true).map_err(|e| fail("ser:bytes:udt-fields-by-name", format!("value given as {c:?}: {e}")))?,
+            }
+        }
+    }
     // binding path: [short n] followed by the n cells
     let bound = match v {
         MValue::Null => drv_bind_twice(&None::<CqlValue>, &ct),
